@@ -36,6 +36,8 @@ def check(case, ctx):
     tag = "Sg%d/%s" % (g.no, g.choice)
     if GR.touch_sibling(g.no, g.choice):
         ctx.event("sibling-setting-used-first")
+    ctx._sample_view = {"group": "%s (Sg%d, %s)" % (g.name, g.no, g.choice), "cell": B.cell, "sintlmin": B.smin, "sintlmax": B.smax,
+                        "call": repr(B.kw), "module": case["mod"], "lattice_points_in_shell": int(len(B.H_shell)), "extinct_among_them": int(B.ext.sum())}
     nt = bool(B.ext.any()) or B.oblique or B.smin > 0
     ctx.nontrivial(nt)
     if B.ext.any():
